@@ -606,3 +606,94 @@ def _check_domain_event(ctx: Ctx, ev: dict, models: list, inst: list, stage: dic
 
 def digest(text: str) -> str:
     return hashlib.sha1(text.encode()).hexdigest()[:16]
+
+
+# ----------------------------------------------------------------------------------------
+# scope preservation of copied conditional literals / aggregates (C07 capture, C16/C10 global -> local)
+# ----------------------------------------------------------------------------------------
+
+
+def _scoped_parts(stm: AST) -> list[tuple[str, set, set]]:
+    """(text, variables inside, variables that are global in the statement) for every conditional literal and body
+    aggregate of a rule / objective body.  A variable is global if it occurs in an unscoped position: a plain body
+    literal, a comparison, an aggregate guard, a plain head literal, the weight/priority/terms of an objective.
+    Occurrences inside other conditional literals, aggregate elements or head elements do not make it global."""
+    out = []
+    if stm.ast_type not in (ASTType.Rule, ASTType.Minimize):
+        return out
+    body = list(stm.body)
+    glob: set = set()
+    if stm.ast_type == ASTType.Rule:
+        head = stm.head
+        if head.ast_type == ASTType.Literal:
+            glob.update(refast.variables(head))
+        else:
+            for g in (getattr(head, "left_guard", None), getattr(head, "right_guard", None)):
+                if g is not None:
+                    glob.update(refast.variables(g))
+    else:
+        for node in [stm.weight, stm.priority, *stm.terms]:
+            glob.update(refast.variables(node))
+    scoped = []
+    for blit in body:
+        if blit.ast_type == ASTType.ConditionalLiteral:
+            scoped.append(blit)
+        elif blit.ast_type == ASTType.Literal and blit.atom.ast_type in (ASTType.BodyAggregate, ASTType.Aggregate):
+            scoped.append(blit)
+            for g in (blit.atom.left_guard, blit.atom.right_guard):
+                if g is not None:
+                    glob.update(refast.variables(g))
+        else:
+            glob.update(refast.variables(blit))
+    glob.discard("_")
+    for blit in scoped:
+        if blit.ast_type == ASTType.ConditionalLiteral:
+            inside = set(refast.variables(blit))
+        else:
+            inside = set()
+            for el in blit.atom.elements:
+                inside.update(refast.variables(el))
+        inside.discard("_")
+        out.append((str(blit), inside, set(glob)))
+    return out
+
+
+def check_scope_preservation(ctx: Ctx) -> list[dict]:
+    """a conditional literal or aggregate that a step copies verbatim into a new statement must keep the scope of its
+    variables: a variable that was local to it may not meet an equally named variable outside (capture by an invented
+    name), and a variable that was shared with the rest of the statement may not become local"""
+    rec = ctx.rec
+    assert rec is not None
+    out: list[dict] = []
+    prev_asts = rec.stage_asts[0]
+    prev = rec.stages[0]
+    for stage, asts in zip(rec.stages[1:], rec.stage_asts[1:]):
+        if stage["stmts"] != prev["stmts"]:
+            before = Counter(prev["stmts"])
+            after = Counter(stage["stmts"])
+            removed = [s for s in prev_asts if (before - after)[str(s)] > 0]
+            added = [s for s in asts if (after - before)[str(s)] > 0]
+            src_parts: dict = {}
+            for s in removed:
+                for text, inside, outside in _scoped_parts(s):
+                    src_parts.setdefault(text, []).append((inside, outside, str(s)))
+            for s in added:
+                for text, inside, outside in _scoped_parts(s):
+                    cands = src_parts.get(text)
+                    if not cands:
+                        continue
+                    ctx.counters["scope_parts_compared"] += 1
+                    local_new = inside - outside
+                    ok = any((i - o) == local_new for i, o, _ in cands)
+                    if ok:
+                        continue
+                    i0, o0, stext = cands[0]
+                    captured = sorted((i0 - o0) - local_new)
+                    localised = sorted(local_new - (i0 - o0))
+                    base = {"step": stage["name"], "iter": stage["iter"], "part": text, "from": stext, "to": str(s)}
+                    if captured:
+                        out.append({"kind": "local-variable-captured", "variables": captured, **base})
+                    if localised:
+                        out.append({"kind": "global-variable-became-local", "variables": localised, **base})
+        prev, prev_asts = stage, asts
+    return out
